@@ -45,7 +45,8 @@ ASSUMPTIONS = ["float32 rounding inside asa_frame is not modelled: sphere points
                "excluded from exact comparison (counted in the evidence); areas are compared under relative bound 2e-5",
                "coordinates lie on a 2^-20 nm grid with |x| < 4 nm; sphere points and radii are rounded to 2^-20 (relative) "
                "and 2^-20*1e-3 nm before entering the integer model",
-               "atoms are not coincident (minimum distance 0.02 nm); atom_indices are in range and non-negative",
+               "atoms are not coincident (minimum distance 0.02 nm); atom_indices are non-negative",
+               "interleaved topologies are built with add_atom in index order, so Topology.atoms walks them in stable order by residue",
                "K (the C constant 4*pi/n_sphere_points) is an integer argument of the model; the runs use K = 1 and divide "
                "the implementation's areas by the float64 constant"]
 
@@ -211,13 +212,21 @@ def gen_system(rng, size_cap):
     # topologies are outside what shrake_rupley - and most of mdtraj - supports, so they are not generated.)
     nres = rng.randint(1, max(1, min(n, 1 + n // 3)))
     resid = sorted(list(range(nres)) + [rng.randrange(nres) for _ in range(n - nres)])
-    nfr = rng.choice([1, 1, 2, 3, 5])
+    interleaved = n >= 3 and nres >= 2 and rng.random() < 0.07
+    if interleaved:
+        # residues NOT contiguous in index order: Topology.atoms (chain -> residue -> atom) then walks the atoms in an
+        # order different from atom.index.  One frame only, so that the frame-carry variant does not interfere.
+        rng.shuffle(resid)
+        if resid == sorted(resid):
+            resid[0], resid[-1] = resid[-1], resid[0]
+    nfr = 1 if interleaved else rng.choice([1, 1, 2, 3, 5])
     frames = []
     for f in range(nfr):
         amp = 0.0 if f == 0 else rng.choice([0.002, 0.02, 0.06])
         fr = [[_grid(p[k] + rng.uniform(-amp, amp)) for k in range(3)] for p in pos]
         frames.append(fr)
-    return {"kind": kind, "elems": elems, "resid": resid, "nres": nres, "xyz": frames, "grid": GRID}
+    return {"kind": kind + ("-interleaved" if interleaved and resid != sorted(resid) else ""), "elems": elems, "resid": resid,
+            "nres": nres, "xyz": frames, "grid": GRID}
 
 
 def min_dist_ok(frames):
@@ -239,7 +248,7 @@ def gen_calls(ctx):
     SYMBOLS.update(ctx.run_impl("sasa_impl.py", {"cases": []})["symbols"])
     quick = ctx.tier == "quick"
     nsys = 300 if quick else 4000
-    budget = 380.0 if quick else 3000.0          # estimated seconds of vm_compute (spread over 4 processes)
+    budget = 200.0 if quick else 3000.0          # estimated seconds of vm_compute (spread over 4 processes)
     pts = sphere_points(ctx)
     groups = []
     skipped = 0
@@ -293,6 +302,11 @@ def gen_calls(ctx):
                    "probe": 0.14, "nsp": 7, "change": None, "sel": [1, 6]})
     groups.append({"kind": "empty-last-residue", "elems": ["C", "H", "O", "N"], "resid": [0, 0, 1, 1], "nres": 3, "grid": GRID,
                    "xyz": far, "probe": 0.05, "nsp": 7, "change": {"Fe": 0.1}, "sel": [3, 0]})
+    for sym in sorted(SYMBOLS - set(get_table())):
+        groups.append({"kind": "missing-radius", "elems": [sym], "resid": [0], "nres": 1, "grid": GRID, "xyz": [[[0, 0, 0]]],
+                       "probe": 0.14, "nsp": 7, "change": None, "sel": None})
+    groups.append({"kind": "pair-interleaved", "elems": ["C", "H", "O"], "resid": [1, 0, 1], "nres": 2, "grid": GRID,
+                   "xyz": [[[0, 0, 0], [_grid(0.21), 0, 0], [_grid(3.0), 0, 0]]], "probe": 0.14, "nsp": 96, "change": None, "sel": None})
     groups.append({"kind": "empty-selection", "elems": ["C", "H", "O", "N"], "resid": [0, 0, 1, 1], "nres": 2, "grid": GRID,
                    "xyz": far, "probe": 0.0, "nsp": 7, "change": None, "sel": []})
     return groups
@@ -438,6 +452,29 @@ def case_of(g, mode, thr):
     return c
 
 
+DESC_ORDER = ("shrake_rupley: radii and residue indices are taken in Topology.atoms walk order, coordinates in atom.index order "
+              "(wrong areas for topologies whose residues are not contiguous)")
+DESC_MISSING = "shrake_rupley raises KeyError: an element defined by mdtraj has no radius in _ATOMIC_RADII"
+
+
+def walk_order(g):
+    """Atom indices in the order Topology.atoms visits them (stable sort by residue)."""
+    return sorted(range(len(g["elems"])), key=lambda j: g["resid"][j])
+
+
+def walk_view(g):
+    """The call the as-found code effectively computes: symbols and residues of the k-th atom of the walk at index k."""
+    w = walk_order(g)
+    g2 = dict(g)
+    g2["elems"] = [g["elems"][k] for k in w]
+    g2["resid"] = [g["resid"][k] for k in w]
+    return g2
+
+
+def is_interleaved(g):
+    return walk_order(g) != list(range(len(g["elems"])))
+
+
 DESC_CARRY = ("shrake_rupley: a frame's areas depend on the frames the same thread processed before "
               "(outframebuffer is not reset between frames)")
 
@@ -479,6 +516,13 @@ def coq_check(ctx, pts, units, procs=4):
             for (job, mode, exp) in units[i][3]:
                 md = "AtomMode" if mode == "atom" else "ResidueMode"
                 checks.append("(%d%%nat, result_ok (shrake_rupley_post (set_mode %s c%d) p%d) %s)" % (job, md, i, i, exp))
+            if len(units[i]) > 4 and units[i][4]:
+                # the as-found view: symbols and residues in Topology.atoms walk order (MD.Sasa.Model.as_found_view)
+                lines.append("Definition w%d : call := as_found_view (walk_order (c_nres c%d) (c_resid c%d)) c%d." % (i, i, i, i))
+                lines.append("Definition q%d : pre := Eval vm_compute in (shrake_rupley_pre w%d)." % (i, i))
+                for (job, mode, exp) in units[i][4]:
+                    md = "AtomMode" if mode == "atom" else "ResidueMode"
+                    checks.append("(%d%%nat, result_ok (shrake_rupley_post (set_mode %s w%d) q%d) %s)" % (job, md, i, i, exp))
         lines.append("Definition checks : list (nat * bool) := [\n%s\n]." % ";\n".join(checks))
         lines.append('Definition tag := "MISMATCH"%string.')
         lines.append("Eval vm_compute in (tag, List.length checks, map fst (filter (fun c => negb (snd c)) checks)).")
@@ -532,7 +576,17 @@ def run_groups(ctx, groups):
                     jobs.append((gi, mode, thr, "cur"))
                     checks.append((len(jobs) - 1, mode, coq_expected(intervals(g, mode, o["rows"], an, g["nsp"],
                                                                                carry_rows=res[(gi, "atom", thr)]["rows"]))))
-        units.append((est_cost(g, an), g["nsp"], coq_call(g, "atom"), checks))
+        ochecks = []
+        if is_interleaved(g):
+            g2 = walk_view(g)
+            an2 = analyse(g2, pts[g["nsp"]][0])
+            for mode in ("atom", "residue"):
+                for thr in THREADS:
+                    o = res[(gi, mode, thr)]
+                    if "rows" in o:
+                        jobs.append((gi, mode, thr, "ord"))
+                        ochecks.append((len(jobs) - 1, mode, coq_expected(intervals(g2, mode, o["rows"], an2, g["nsp"]))))
+        units.append((est_cost(g, an) * (2 if ochecks else 1), g["nsp"], coq_call(g, "atom"), checks, ochecks))
     ctx.log("model evaluations: %d, estimated %.0f s of vm_compute" % (len(units), sum(u[0] for u in units)))
     bad, errs = coq_check(ctx, pts, units)
     ctx.log("model evaluations done")
@@ -543,7 +597,7 @@ def run_groups(ctx, groups):
     ctx.notes.setdefault("coverage_extra", {})["sphere_points_excluded_by_guard_band"] = \
         ctx.notes.get("coverage_extra", {}).get("sphere_points_excluded_by_guard_band", 0) + excluded
     # decide per call
-    n_fix = n_cur = 0
+    n_fix = n_cur = n_ord = 0
     for gi, g in enumerate(groups):
         an = analyses[gi]
         nontriv = any(bool((a["has_nb"] & (a["cnt"] > 0)).any()) for a in an)
@@ -556,6 +610,11 @@ def run_groups(ctx, groups):
                     n_fix += 1
                     continue
                 o = res[(gi, mode, thr)]
+                if (gi, mode, thr, "ord") in jobs and (gi, mode, thr, "ord") not in badset:
+                    n_ord += 1
+                    ctx.fail(DESC_ORDER, case, observed=o, expected="radii and residues by atom index (Coq shrake_rupley on the call itself)",
+                             tags={"explained_by": "atoms_walk_order", "threads": thr})
+                    continue
                 if (gi, mode, thr, "cur") in jobs and (gi, mode, thr, "cur") not in badset:
                     n_cur += 1
                     ctx.fail(DESC_CARRY, case, observed=o, expected="each frame evaluated from a zeroed buffer (Coq frame_row)",
@@ -573,6 +632,14 @@ def run_groups(ctx, groups):
     ce = ctx.notes.setdefault("coverage_extra", {})
     ce["calls_matching_repaired_model"] = ce.get("calls_matching_repaired_model", 0) + n_fix
     ce["calls_explained_only_by_as_found_carry_over"] = ce.get("calls_explained_only_by_as_found_carry_over", 0) + n_cur
+    ce["calls_explained_only_by_walk_order_of_interleaved_topology"] = ce.get("calls_explained_only_by_walk_order_of_interleaved_topology", 0) + n_ord
+    ce["interleaved_topologies"] = ce.get("interleaved_topologies", 0) + sum(1 for g in groups if is_interleaved(g))
+    for gi, g in enumerate(groups):
+        if g["kind"] == "missing-radius":
+            o = res.get((gi, "atom", THREADS[0]))
+            if o and o.get("err") == "KeyError":
+                ctx.fail(DESC_MISSING, case_of(g, "atom", THREADS[0]), observed=o, expected="an area (documented default 0.2 nm) or a radius entry",
+                         tags={"kind": "missing_radius", "symbol": g["elems"][0]})
     return res, analyses
 
 
@@ -613,6 +680,8 @@ def sentinel(ctx, groups, res, analyses):
     pts = sphere_points(ctx)
     viol = 0
     for gi, g in enumerate(groups):
+        if is_interleaved(g):
+            continue              # the relations below are written with index-order radii; the model comparison covers these
         n = len(g["elems"])
         rf = radii_float(g)
         const = 4.0 * math.pi / g["nsp"]
@@ -702,6 +771,8 @@ def subset_and_frame_checks(ctx, groups, res):
     each frame alone and compare the kept values (float32 against float32 of the same computation: exact)."""
     payload, keys = [], []
     for gi, g in enumerate(groups):
+        if is_interleaved(g):
+            continue
         base = {k: g[k] for k in ("elems", "resid", "nres", "grid", "probe", "nsp", "change")}
         if g["sel"] is not None:
             c = dict(base, xyz=g["xyz"], sel=None, mode="atom")
